@@ -41,6 +41,10 @@ def gen_world(rng, i, tier):
             w["ep"] = "readFile"
         else:
             lw["read"]["delim"], lw["read"]["comment"] = D, C
+            for n in lw["nodes"]:
+                if n["t"] == "f":
+                    n["delim"] = D[0] if D else "="
+                    n.pop("noise", None)
             if lw["cfg"].get("cwd"):
                 w["cfg"]["cwd"] = lw["cfg"]["cwd"]
             w["layered"] = {"read": lw["read"], "nodes": lw["nodes"]}
